@@ -120,6 +120,8 @@ pub enum Op {
     Retune(u32),
     /// wall-clock jump in seconds (may be negative)
     ClockJump(i64),
+    /// drop the store object (handles survive); later operations go through a stale handle
+    Close,
 }
 
 #[derive(Clone, Debug, Serialize, Deserialize, PartialEq)]
